@@ -49,6 +49,33 @@ def farkas_hint(Ap, bp, b, t, lb, ub):
     return lam
 
 
+def lower_level_witness(Ap, bp, b, lb, ub, t_impl):
+    """untrusted search for an in-bound point whose excitation difference is below t_impl: bisection on the level t over the linear
+    feasibility problems G(t) x <= h(t) (level_rows_float), box. Returns an in-bound point (clipped) or None; its objective is
+    evaluated exactly by the model afterwards (op excdoc), the search itself is not trusted."""
+    from scipy.optimize import linprog
+    n = Ap.shape[1]
+    bounds = [(float(l), None if not np.isfinite(u) else float(u)) for l, u in zip(lb, ub)]
+
+    def feasible(t):
+        G, h = level_rows_float(Ap, bp, b, t)
+        try:
+            res = linprog(np.zeros(n), A_ub=G, b_ub=h, bounds=bounds, method="highs")
+        except Exception:  # noqa: BLE001
+            return None
+        return np.clip(res.x, lb, ub) if res.status == 0 else None
+
+    lo, hi, best = 0.0, float(t_impl), None
+    for _ in range(40):
+        mid = (lo + hi) / 2
+        x = feasible(mid)
+        if x is None:
+            lo = mid
+        else:
+            hi, best = mid, x
+    return best
+
+
 def wfold(M, w):
     """exact diag(w) M (channel weights folded into capture matrix / baseline / target, the way K is)"""
     M = np.asarray(M)
@@ -129,6 +156,14 @@ def run(R):
               "row on its own against that row's objective, however it was computed (a group's objective is the sum of its rows' objectives "
               "over disjoint variables - proved for the stacked least-squares form in Dreye.ExtrasA.stacked_objective_sum - so the rows of a "
               "correct joint solve are row-wise optimal); counted: joint groups whose relative baseline K*baseline / bounds differ between receptors / sources. "
+              "Weights come as channel weights (one vector), as per-sample importance weights (a samples x receptors matrix whose rows differ: "
+              "about half of the weighted systems; every row's gap / level certificate uses that row's weights) or as the documented W='inverse' "
+              "(1/B; a quarter of the systems otherwise without weights). History: before the judged fits the same process has fitted the system "
+              "with another adaptation state and, for 60% of the systems, has run a quick preview of the excitation model with non-default "
+              "bisection options (eps, low/high bracket, max_iters, max_iters_interval_search) and of the Poisson model with loose CLARABEL "
+              "tolerances; the judged fits pass no options and must meet the ordinary certificates. When an excitation answer is not certified, an "
+              "in-bound point with a lower objective is searched (LP bisection, untrusted) and evaluated exactly by the model: better by more "
+              "than eps => the answer is not a global minimiser (predicate failure with that point as witness). "
               "Non-trivial: target outside the gamut or on its boundary, or baseline non-zero.")
     kinds = ["inside", "inside", "boundary", "outside", "outside"]
     WROWS = [0, 2, 3]
@@ -163,27 +198,57 @@ def run(R):
         ingamut = [kd in ("inside", "boundary") and bool(np.all(B[i] > FLOOR)) for i, kd in enumerate(kinds)]    # not raised to the floor
         wk = "vector" if both else str(rng.choice(["none", "vector"]))
         W = None if wk == "none" else (rng.integers(1, 3, size=nf).astype(float) if whole else dyadic(rng, 0.5, 2, 2, size=nf))
+        # per-sample importance weights (own random stream: systems, targets and channel weights are those of the runs without this
+        # variant): W of shape (samples, receptors) whose rows differ - each target is then fitted with ITS row of weights and every
+        # certificate below uses that row. Row 0 keeps the channel weights drawn above; row 1 is made to differ from row 0.
+        # A quarter of the systems without weights asks for W='inverse' instead (documented: W = 1 / B, per-sample by construction).
+        wr = R.rng(6, si)
+        if W is not None and (si % 8 == 1 or wr.random() < 0.5):
+            wk = "matrix"
+            W = np.array([W] + [(wr.integers(1, 4, size=nf).astype(float) if whole else dyadic(wr, 0.5, 2, 2, size=nf)) for _ in range(len(B) - 1)])
+            if np.array_equal(W[1], W[0]):
+                j_ = int(wr.integers(nf)); W[1, j_] = 2.0 if W[0, j_] != 2.0 else 1.0
+        elif W is None and wr.random() < 0.25:
+            wk = "inverse"
+        # WR: the weights of every row, as values (what the model gets)
+        WR = np.ones((len(B), nf)) if wk == "none" else (1 / B if wk == "inverse" else np.broadcast_to(W, (len(B), nf)).copy())
+        W1 = "inverse" if wk == "inverse" else (None if W is None else (W[:1] if W.ndim == 2 else W))     # weights of the first target alone
         # representation of the arguments of the three fits (implementation side only; the model gets the values)
         rr = R.rng(2, si)
-        g = {a: (None if v is None else as_given(rr, v, R, a)) for a, v in (("A", S["A"]), ("lb", S["lb"]), ("ub", S["ub"]), ("W", W), ("K", S["K"]), ("baseline", S["baseline"]))}
+        g = {a: (None if v is None else as_given(rr, v, R, a)) for a, v in (("A", S["A"]), ("lb", S["lb"]), ("ub", S["ub"]), ("W", None if wk == "inverse" else W), ("K", S["K"]), ("baseline", S["baseline"]))}
         if whole:
             assert np.all(B == np.round(B))
             g["B"] = B.astype(np.int64) if rr.random() < 0.67 else B.astype(np.int64).tolist()
             R.count("given:B:%s" % ("int" if isinstance(g["B"], np.ndarray) else "list-of-int"))
         else:
             g["B"] = as_given(rr, B, R, "B")
+        if wk == "inverse":
+            g["W"] = "inverse"
         c = dict(k=k, nf=nf, ns=ns, A=S["A"], K=S["K"], K_kind=S["K_kind"], baseline=S["baseline"], baseline_kind=S["baseline_kind"], lb=S["lb"], ub=S["ub"],
-                 W=W, B=B, target_kinds=kinds, whole=whole,
-                 given={a: ("list" if isinstance(v, list) else ("None" if v is None else str(v.dtype) + ("" if v.flags["C_CONTIGUOUS"] else ":non-contiguous"))) for a, v in g.items()})
+                 W=("inverse" if wk == "inverse" else W), weights_kind=wk, B=B, target_kinds=kinds, whole=whole,
+                 given={a: ("list" if isinstance(v, list) else ("None" if v is None else v if isinstance(v, str) else str(v.dtype) + ("" if v.flags["C_CONTIGUOUS"] else ":non-contiguous"))) for a, v in g.items()})
         for key in ("K_kind", "baseline_kind"):
             R.count("%s:%s" % (key, c[key]))
         R.count("weights:" + wk); R.count("ub:" + S["ub_kind"]); R.count("data:" + ("whole" if whole else "dyadic"))
-        R.count("weights+baseline:%s" % (wk == "vector" and bool(np.any(S["bp"] != 0))))
+        R.count("weights+baseline:%s" % (wk != "none" and bool(np.any(S["bp"] != 0))))
         # history: the same system was fitted with another adaptation state just before (answers must not depend on it)
         K_other = (np.ones(nf) * 2.0) if S["K"] is None else np.atleast_1d(S["K"]) * np.linspace(0.5, 2.0, max(np.atleast_1d(S["K"]).shape[0], 1))
         for mdl in ("gaussian", "poisson"):
-            call(lsq_linear, S["A"], B[:1], lb=S["lb"], ub=S["ub"], W=W, K=K_other, baseline=S["baseline"], model=mdl, return_pred=True, solver="CLARABEL")
+            call(lsq_linear, S["A"], B[:1], lb=S["lb"], ub=S["ub"], W=W1, K=K_other, baseline=S["baseline"], model=mdl, return_pred=True, solver="CLARABEL")
         call(lsq_linear_excitation, S["A"], B[:1], lb=S["lb"], ub=S["ub"], W=None, K=K_other, baseline=S["baseline"], return_pred=True)
+        # history, second kind: a fit with NON-DEFAULT solver options just before (a coarse quick preview, a user bracket for the
+        # bisection, loose interior-point tolerances). Options belong to the call they are passed to: the ordinary fits below pass
+        # none and are judged by the ordinary certificates. The preview's own answer is not judged. (own random stream)
+        hr = R.rng(7, si)
+        if hr.random() < 0.6:
+            eo = [dict(eps=5e-2), dict(eps=1e-1), dict(low=0.0, high=1.0, eps=2e-2), dict(eps=1e-1, max_iters=8), dict(eps=3e-2, max_iters_interval_search=20)][int(hr.integers(5))]
+            R.count("history:excitation-preview-with-options:%s" % "+".join(sorted(eo)))
+            call(lsq_linear_excitation, S["A"], B[3:4] if hr.random() < 0.5 else B[:2], lb=S["lb"], ub=S["ub"], W=None, K=S["K"], baseline=S["baseline"], return_pred=True, **eo)
+            po = [dict(tol_gap_abs=1e-2, tol_gap_rel=1e-2, tol_feas=1e-2), dict(max_iter=6), dict(tol_gap_rel=1e-1, tol_gap_abs=1e-1)][int(hr.integers(3))]
+            R.count("history:poisson-preview-with-options:%s" % "+".join(sorted(po)))
+            call(lsq_linear, S["A"], B[3:4], lb=S["lb"], ub=S["ub"], W=(None if W1 is None else "inverse" if wk == "inverse" else WR[3:4]), K=S["K"], baseline=S["baseline"], model="poisson", return_pred=True, solver="CLARABEL", **po)
+        else:
+            R.count("history:no-preview")
         # the performance option batch_size (C05: never changes a result): the five targets are fitted one by one, in jointly solved
         # groups of 2, 3 or 4 (zero-padded last group) or all at once. The certificates below judge every returned row on its own against
         # that row's objective (the objective of a jointly solved group is the sum of the rows' objectives over disjoint variables, cf.
@@ -201,22 +266,23 @@ def run(R):
         stp, op_ = call(lsq_linear, g["A"], g["B"], lb=g["lb"], ub=g["ub"], W=g["W"], K=g["K"], baseline=g["baseline"], model="poisson", return_pred=True, solver="CLARABEL", **bkw)
         ste, oe = call(lsq_linear_excitation, g["A"], g["B"], lb=g["lb"], ub=g["ub"], W=None, K=g["K"], baseline=g["baseline"], return_pred=True, **bkw)
         Ap, bp = S["Ap"], S["bp"]
-        wv = np.ones(nf) if W is None else W
+        wv = WR      # (rows x receptors: the weights of each target)
         # excitation with channel weights: a sub-batch (one inside, the boundary and one outside target)
         stw, ow = (None, None)
-        if W is not None and (both or whole or rr.random() < 0.5):
-            R.count("excitation-fitted-with-weights")
+        if wk != "none" and (both or whole or rr.random() < 0.5):
+            R.count("excitation-fitted-with-weights:" + wk)
             gBw = np.asarray(g["B"])[WROWS]
-            stw, ow = call(lsq_linear_excitation, g["A"], gBw.tolist() if isinstance(g["B"], list) else gBw, lb=g["lb"], ub=g["ub"], W=g["W"], K=g["K"], baseline=g["baseline"], return_pred=True, **bkw)
+            gWw = g["W"] if wk != "matrix" else ([g["W"][i] for i in WROWS] if isinstance(g["W"], list) else np.asarray(g["W"])[WROWS])     # the sub-batch's rows of per-sample weights
+            stw, ow = call(lsq_linear_excitation, g["A"], gBw.tolist() if isinstance(g["B"], list) else gBw, lb=g["lb"], ub=g["ub"], W=gWw, K=g["K"], baseline=g["baseline"], return_pred=True, **bkw)
             if stw == "ok":
                 for j, i in enumerate(WROWS):
                     xw = np.clip(ow[0][j], S["lb"], S["ub"])
                     R.driver.ask("w%s_%d" % (k, i), "excdoc", ms(Ap), vs(bp), vs(B[i]), vs(xw))                                    # documented objective
-                    R.driver.ask("v%s_%d" % (k, i), "excdoc", ms(wfold(Ap, W)), vs(wfold(bp, W)), vs(wfold(B[i], W)), vs(xw))         # on weighted captures
+                    R.driver.ask("v%s_%d" % (k, i), "excdoc", ms(wfold(Ap, WR[i])), vs(wfold(bp, WR[i])), vs(wfold(B[i], WR[i])), vs(xw))         # on weighted captures
         c["_w"] = (stw, ow); c["_ingamut"] = ingamut
         if stp == "ok":
             for i in range(len(B)):
-                R.driver.ask("p%s_%d" % (k, i), "poisgap", ns, ms(Ap), vs(bp), vs(wv), vs(B[i]), vs(S["lb"]), ub_text(S["ub"]), vs(np.clip(op_[0][i], S["lb"], S["ub"])))
+                R.driver.ask("p%s_%d" % (k, i), "poisgap", ns, ms(Ap), vs(bp), vs(wv[i]), vs(B[i]), vs(S["lb"]), ub_text(S["ub"]), vs(np.clip(op_[0][i], S["lb"], S["ub"])))
         if ste == "ok":
             for i in range(len(B)):
                 R.driver.ask("e%s_%d" % (k, i), "excdoc", ms(Ap), vs(bp), vs(B[i]), vs(np.clip(oe[0][i], S["lb"], S["ub"])))
@@ -235,7 +301,7 @@ def run(R):
         # excitation difference of the WEIGHTED captures?  Same certificate with the weights folded into A', baseline' and target.
         stw, ow = c["_w"]
         if stw == "ok":
-            i = WROWS[-1]; W = c["W"]
+            i = WROWS[-1]; W = wv[i]
             thw = R.driver.get("v%s_%d" % (k, i)).rat()
             c["_thw"] = thw
             if float(thw) - EPS > 0:
@@ -296,7 +362,7 @@ def run(R):
                     # (with weights w the programme works on w*b and w*p; |e(b)-e(p)| <= max(w, 1/w) |e(wb)-e(wp)|, so the accuracy EPS
                     # granted to the unweighted fit is granted times that factor)
                     tdoc = R.driver.get("w%s_%d" % (k, i)).rat()
-                    wfac = float(max(np.max(c["W"]), 1.0 / np.min(c["W"])))
+                    wfac = float(max(np.max(wv[i]), 1.0 / np.min(wv[i])))
                     R.count("excitation+weights:in-gamut-objective<=eps:%s" % (float(tdoc) <= EPS * wfac))
                     if float(tdoc) > EPS * wfac:
                         R.failB(dict(pub, model=name, row=i, target=B[i], impl=[X[j], Bp[j]], objective=float(tdoc)),
@@ -312,15 +378,15 @@ def run(R):
                 t = R.driver.get("p%s_%d" % (k, i)); inb = t.bool(); minp = t.rat(); gap = t.tok()
                 ok = inb and minp > 0 and gap != "none"
                 gv = float(parse_rat(gap)) if gap != "none" else float("inf")
-                scale = float(np.sum(wv * (B[i] + 1)))
+                scale = float(np.sum(wv[i] * (B[i] + 1)))
                 if not ok and inb and minp > 0 and not np.all(np.isfinite(S["ub"])):
                     # a source without upper bound whose gradient entry is slightly negative: infinite gap at the answer.
                     # Evaluate the gap at a slightly larger in-bound point x' and carry it back (theorem poisson_shifted_gap_bound)
                     xh = np.clip(op_[0][i], S["lb"], S["ub"])
                     for dl in (1e-6, 1e-4, 1e-2):
                         x2 = np.where(np.isfinite(S["ub"]), xh, xh + dl * (1.0 + np.abs(xh)))
-                        R.driver.ask("q1", "poisgap", ns, ms(Ap), vs(bp), vs(wv), vs(B[i]), vs(S["lb"]), ub_text(S["ub"]), vs(x2))
-                        R.driver.ask("q2", "poistan", ns, ms(Ap), vs(bp), vs(wv), vs(B[i]), vs(xh), vs(x2))
+                        R.driver.ask("q1", "poisgap", ns, ms(Ap), vs(bp), vs(wv[i]), vs(B[i]), vs(S["lb"]), ub_text(S["ub"]), vs(x2))
+                        R.driver.ask("q2", "poistan", ns, ms(Ap), vs(bp), vs(wv[i]), vs(B[i]), vs(xh), vs(x2))
                         R.driver.run()
                         t1 = R.driver.get("q1"); inb2 = t1.bool(); minp2 = t1.rat(); gap2 = t1.tok()
                         t2 = R.driver.get("q2"); t2.rat(); tan = t2.rat()
@@ -346,6 +412,21 @@ def run(R):
                         okc = parse_rat(tok) > 0
                 R.cert(okc)
                 if not okc:
+                    # not certified: is the answer really sub-optimal?  Search an in-bound point with a lower objective (untrusted LP
+                    # bisection) and let the model evaluate the documented objective there exactly: a point better by more than the
+                    # accuracy EPS granted to the engine shows that the answer is not a global minimiser (property predicate).
+                    xw_ = lower_level_witness(Ap, bp, B[i], S["lb"], S["ub"], float(that))
+                    if xw_ is not None:
+                        R.driver.ask("x%s_%d" % (k, i), "excdoc", ms(Ap), vs(bp), vs(B[i]), vs(xw_))
+                        R.driver.run()
+                        tw_ = R.driver.get("x%s_%d" % (k, i))
+                        tw_ = tw_.rat() if tw_ is not None and tw_.t and tw_.t[0] != "ERR" else None
+                        if tw_ is not None and float(tw_) < float(that) - EPS:
+                            R.count("excitation:better-in-bound-point-exhibited")
+                            R.failB(dict(pub, model="excitation", row=i, target=B[i], impl=[oe[0][i], oe[1][i]], objective=float(that), better_point=xw_, better_objective=float(tw_)),
+                                    "excitation model: the returned intensities have excitation difference %.6g, the in-bound point %s has %.6g (accuracy granted: %.0e): not a global minimiser"
+                                    % (float(that), np.asarray(xw_).tolist(), float(tw_), EPS), "C07:excitation:not-global-minimum:%s" % c["target_kinds"][i])
+                            continue
                     R.failA(dict(pub, row=i, objective=float(that)), "excitation answer not certified within %.0e of the optimum level (objective %.6g)" % (EPS, float(that)))
     n_sys = max(1, R.evaluations)
     R.notes["solver_errors_raised"] = n_solver_err[0]
